@@ -230,9 +230,13 @@ def tla_fun_of_seqs(name, d):
     items = ["(%s :> <<%s>>)" % (tla_str(k), ", ".join(tla_str(x) for x in v)) for k, v in sorted(d.items())]
     return "%s == %s\n" % (name, " @@ ".join(items))
 
-def accepted(run, exe, U):
-    """ask the real parser which universe members it accepts: {eco: [texts]} (order kept)"""
-    jobs = [{"k": "accept", "eco": e, "texts": [t for t, _ in U[e]]} for e in sorted(U)]
+def accepted(run, exe, U, regex_extra=0, rnd=None):
+    """ask the real parser which universe members it accepts: {eco: [texts]} (order kept). With
+    regex_extra > 0 the candidates are widened (B2) by strings sampled from the regular expressions
+    found in the parsers' sources (lib/regexgen.py)."""
+    import regexgen
+    extra = {e: (regexgen.sample(REPO, e, rnd or random.Random(seed()), regex_extra) if regex_extra else []) for e in U}
+    jobs = [{"k": "accept", "eco": e, "texts": [t for t, _ in U[e]] + [x for x in extra[e] if x not in dict(U[e])]} for e in sorted(U)]
     jp, ep = run.path("acc.jobs"), run.path("acc.ev")
     write_ndjson(jp, jobs)
     run_harness(run, exe, jp, ep)
